@@ -21,6 +21,7 @@ import (
 	"verif/checks/c15"
 	"verif/checks/c16"
 	"verif/checks/c18"
+	"verif/checks/c19"
 	"verif/checks/c20race"
 	"verif/engine/core"
 	"verif/gen/keys"
@@ -48,9 +49,14 @@ var checks = map[string]check{
 	"C15": {"fault_enumeration", c15.Run},
 	"C16": {"exploration", c16.Run},
 	"C18": {"exploration", c18.Run},
+	"C19": {"fault_enumeration", c19.Run},
 }
 
 func main() {
+	if len(os.Args) >= 6 && os.Args[1] == "c19worker" {
+		c19.Worker(os.Args[2:])
+		return
+	}
 	if len(os.Args) >= 2 && os.Args[1] == "racepass" {
 		c20race.Run()
 		return
